@@ -35,7 +35,7 @@ PROBES = ["fault_free_runs", "files_structurally_compared", "adjusted_rules_mask
           "fault:eacces-in", "fault:eio-in", "fault:eio-close-out", "dir_invocation", "file_invocation", "cwd_is_tree", "bystanders_checked",
           "feat:opaque-atrules", "feat:odd-strings", "feat:vendor-hacks", "feat:star-hack", "feat:crlf", "feat:bom", "feat:cdo-cdc",
           "feat:non-ascii", "feat:nesting", "feat:vars", "feat:unicode-seps", "feat:dup-root", "feat:nested-root", "feat:dup-selectors", "feat:comment-in-value", "feat:stale-charset", "feat:css-nesting", "feat:own-colour-elsewhere", "noarg_invocation", "glue_comment_needed", "report_written", "stale_output_overwritten",
-          "cm_named_stylesheet_as_file_argument", "cm_named_stylesheet_as_bystander", "symlinked_stylesheet_input", "real_interpreter_non_utf8_locale_runs", "tmpdir_on_other_filesystem_runs", "invoked_from_non_main_thread", "second_invocation_in_process:delete-out", "second_invocation_in_process:foreign-out", "second_invocation_in_process:keep", "runs_with_a_dozen_untunable_rules"]
+          "cm_named_stylesheet_as_file_argument", "cm_named_stylesheet_as_bystander", "symlinked_stylesheet_input", "real_interpreter_non_utf8_locale_runs", "tmpdir_on_other_filesystem_runs", "invoked_from_non_main_thread", "second_invocation_in_process:delete-out", "second_invocation_in_process:foreign-out", "second_invocation_in_process:keep", "runs_with_a_dozen_untunable_rules", "reported_selector_on_several_rules"]
 
 C09_FEATURES = gen.ALL_FEATURES
 _NAMES = ("a.css", "b.css", "main.css", "thème.css", "my style.css", "reset.min.css", "the\u0300me.css")  # (composed and decomposed è)
@@ -438,6 +438,23 @@ def execute(trace):
                     bump("glue_comment_needed")
                 else:
                     V("structure-differs", "free", file=rel, path=list(d[0]), input=repr(d[1])[:300], output=repr(d[2])[:300], _features=fv)
+            elif adj:
+                # the mask is by selector text: when SEVERAL rules of the file carry a reported selector (a base rule and its
+                # @media override, say), no more of them may have a changed text colour than there are report entries for it
+                try:
+                    oinfos, _op = refs.analyse(out_text.lstrip("\ufeff"), trace["settings"].get("default_bg") or "white")
+                except Exception:
+                    oinfos = None
+                if oinfos is not None and len(oinfos) == len(infos) and not mask_props:
+                    for sel_text in sorted(adj):
+                        n_cards = sum(1 for cs in card_sels if cs == sel_text or (has_bom and cs.startswith("\ufeff") and cs.endswith(sel_text)))
+                        pairs_ = [(a_, b_) for a_, b_ in zip(infos, oinfos) if a_.selector == sel_text and b_.selector == sel_text]
+                        if len(pairs_) > 1:
+                            bump("reported_selector_on_several_rules")
+                            n_changed = sum(1 for a_, b_ in pairs_ if a_.color_value != b_.color_value)
+                            if n_changed > n_cards:
+                                V("structure-differs", "free", file=rel, selector=sel_text, rules_changed=n_changed, report_entries=n_cards,
+                                  note="more rules with this selector had their text colour changed than were reported as adjusted", _features=fv)
             if not in_has_err and (refs.has_parse_error(out_text.lstrip("\ufeff")) or _top_level_parse_error(out_text)):
                 V("output-invalid-css", "free", file=rel, _features=fv)
     finally:
